@@ -16,7 +16,9 @@ META = {
                  "Relocate action that leaves the abstract state unchanged; the state graph dumped by TLC is walked in "
                  "graph lock-step with the real structures while the backing memory block is copied byte for byte to a "
                  "fresh, differently aligned address (old block poisoned and mprotect(PROT_NONE)) at arbitrary points; "
-                 "recorded walks with relocations are validated by TLC trace specifications",
+                 "recorded walks with relocations are validated by TLC trace specifications; in addition the complete memory image "
+                 "is handed to a SECOND PROCESS (fresh exec of the driver, all addresses differ under ASLR) which adopts "
+                 "it byte for byte, must observe the same model state and continues the lock-step walk",
     "text": "TLC checks CVec/CQueue/CSlotMap/CFlatMap/CString/CIndexSet/CBitSet.tla with the action Relocate and the "
             "action property PositionIndependent (Relocate changes nothing observable, so every later result equals the "
             "result without it). The bounded graphs are then walked on RelocatableVec/Queue/SlotMap/FlatMap/String, the "
@@ -26,13 +28,21 @@ META = {
             "BumpAllocator: edge cover with a relocation after every edge, all paths up to the reported depth with a "
             "relocation optionally before every operation (all subsets of positions), seeded random walks with "
             "relocations. After every step and every relocation the result and the full observable state are compared "
-            "with the automaton; a fault on the poisoned block is caught in a child process and reported.",
+            "with the automaton; a fault on the poisoned block is caught in a child process and reported. Also driven: "
+            "the cal shm_allocator PoolAllocator (management data + payload in one block, seen as an index set: bucket "
+            "index = offset / bucket size) and the cal zero-copy-connection UsedChunkList (relocatable and fixed-size, "
+            "seen as a bit set: insert = set, remove_all = reset_all). Hand-over: every structure / flavour / capacity is "
+            "walked for a few steps, its image written to a file and adopted by a freshly executed second process that "
+            "continues the walk (an address of the first process that survived in the image - block pointer, function "
+            "pointer, address of a static - faults or diverges there).",
     "note": "Trusted: TLC, the JSON edge dump, the driver's adapters and its relocation (memcpy of header + payload as "
             "allocated by RelocatableContainer::init from the bump allocator; in-slot offsets vary in multiples of 16 so "
             "that element alignment is preserved). A divergence is attributed to C14 only if the same history without "
-            "the relocations does not diverge (otherwise it is C16's). Not covered: mpmc::Container, cal UsedChunkList, "
-            "cal shm_allocator pool allocator (no sequential reference model built); dual mapping of a real POSIX shm "
-            "object (the byte copy subsumes it for structures that are self-contained in their block).",
+            "the relocations does not diverge (otherwise it is C16's). Not covered: mpmc::Container (no "
+            "sequential reference model built; its position independence is exercised by every multi-process run of "
+            "C04/C06); dual mapping of a real POSIX shm object (the byte copy and the hand-over to a second process subsume "
+            "it for structures that are self-contained in their block). The hand-over relies on ASLR (kernel."
+            "randomize_va_space); without it the second process has the same layout and the step loses power, never soundness.",
     "design_ref": "DESIGN.md 5 C14, 3.5",
     "replay": True,
 }
@@ -109,7 +119,8 @@ def run(ctx):
     for kind in K:
         # indexset/shmpool: the cal shm_allocator::PoolAllocator (management data + payload in one block), its
         # allocations are offsets: bucket index = offset / bucket size
-        flavours = ["reloc", "inline"] + (["shmpool"] if kind == "indexset" else [])
+        # bitset/ucl, uclinline: the cal zero_copy_connection UsedChunkList (insert = set, remove_all = reset_all)
+        flavours = ["reloc", "inline"] + (["shmpool"] if kind == "indexset" else []) + (["ucl", "uclinline"] if kind == "bitset" else [])
         for fl in flavours:
             for cap in caps_of(kind, quick):
                 # exhaustive enumeration: old block poisoned (0xA5); cover and random walks: poisoned and PROT_NONE
